@@ -26,7 +26,7 @@ TECHNIQUE = "property-based testing (Hypothesis): model-based oracle over genera
 
 
 def cases(tier):
-    return 2400 if tier == "quick" else 480000
+    return 2400 if tier == "quick" else 160000
 
 
 def strategy(hazards):
